@@ -852,6 +852,10 @@ func c06HistInterp(t *testing.T, c hCase) (v kit.Verdict) {
 	if n < 1 || n > len(cache.C06Srvs) || c.Expire < 1 || c.NFExp < 1 {
 		return kit.Verdict{Excluded: true}
 	}
+	if cache.C06Poisoned(c.Salt) {
+		// a late command of a stalled earlier case could hit this case's keys
+		return kit.Verdict{Excluded: true, Classes: []string{"excluded-key-names-of-a-stalled-case"}}
+	}
 	r.srvs = cache.C06Srvs[:n]
 	for _, s := range cache.C06Srvs {
 		s.Reset(fmt.Sprintf("p%d:", c.Salt), fmt.Sprintf("i%d:", c.Salt))
@@ -973,6 +977,7 @@ func c06HistInterp(t *testing.T, c hCase) (v kit.Verdict) {
 		}
 	})
 	if r.stalled {
+		cache.C06Poison(c.Salt)
 		// a real-time socket time-out of the redis client may have fired: the
 		// environment, not the code, decided this case
 		return kit.Verdict{Excluded: true, Classes: []string{"excluded-real-time-stall"}}
